@@ -52,9 +52,10 @@ def t_validate(ref_intervals: Arr(Real, None, 2), ref_pitches: Arr(Real, None), 
 @assumed_contract("mir_eval.transcription.match_notes", props="C05 C04", note="maximum matching of onset & pitch & (offset) relation; bounded engine matchnative")
 def match_notes(ref_intervals: Arr(Real, None, 2), ref_pitches: Arr(Real, None), est_intervals: Arr(Real, None, 2), est_pitches: Arr(Real, None),
                 onset_tolerance: Real = 0.05, pitch_tolerance: Real = 50.0, offset_ratio: Opt(Real) = 0.2, offset_min_tolerance: Real = 0.05,
-                strict: Bool = False) -> Lst(ObjT):
+                strict: Bool = False) -> Lst(Tup(Int, Int)):
     n = length(ref_intervals)
     m = length(est_intervals)
+    ensures(forall(0, length(result), lambda k: 0 <= result[k][0] and result[k][0] < n and 0 <= result[k][1] and result[k][1] < m), label='pairs-in-range')
     ensures(length(result) == mm(n, m, note_rel(ref_intervals, ref_pitches, est_intervals, est_pitches, onset_tolerance, pitch_tolerance,
                                                 offset_ratio, offset_min_tolerance, strict)), label='size')
     ensures(0 <= length(result), length(result) <= n, length(result) <= m, label='pigeonhole')
@@ -77,9 +78,15 @@ def match_note_offsets(ref_intervals: Arr(Real, None, 2), est_intervals: Arr(Rea
     ensures(0 <= length(result), length(result) <= n, length(result) <= m, label='pigeonhole')
 
 
-@assumed_contract("mir_eval.transcription.average_overlap_ratio", props="C01", note="mean overlap ratio of matched notes, at most 1; bounded engine transnative")
-def average_overlap_ratio(ref_intervals: Arr(Real, None, 2), est_intervals: Arr(Real, None, 2), matching: Lst(ObjT)) -> Real:
-    ensures(result <= 1, implies(length(matching) == 0, result == 0))
+@contract("mir_eval.transcription.average_overlap_ratio", props="C01 C14")
+def average_overlap_ratio(ref_intervals: Arr(Real, None, 2), est_intervals: Arr(Real, None, 2), matching: Lst(Tup(Int, Int))) -> Real:
+    """mean over the matched pairs of overlap / union length: at most 1 (no lower bound is claimed), 0 when nothing is matched"""
+    requires(valid_iv(ref_intervals), valid_iv(est_intervals))
+    requires(forall(0, length(matching), lambda k: 0 <= matching[k][0] and matching[k][0] < length(ref_intervals)
+                    and 0 <= matching[k][1] and matching[k][1] < length(est_intervals)))
+    invariant(lambda: length(ratios) == loop_index(0) and forall(0, length(ratios), lambda k: ratios[k] <= 1), loop=0, label='ratios<=1')
+    ghost(lambda: (sum_le(ratios, array_of(length(ratios), lambda i: 1.0)), sum_const(array_of(length(ratios), lambda i: 1.0), 1.0)), after_loop=0)
+    ensures(result <= 1, implies(length(matching) == 0, result == 0), label='at-most-1', props="C01")
 
 
 @contract("mir_eval.transcription.precision_recall_f1_overlap", props="C01 C04 C07 C14")
